@@ -8,7 +8,7 @@ git -C /repo worktree add -q --detach $WT HEAD || exit 9
 cd $WT
 git apply $DIFF || { echo "PATCH DOES NOT APPLY"; git -C /repo worktree remove --force $WT; exit 8; }
 git diff --stat | tail -1
-CARGO_TARGET_DIR=/tmp/rv/target cargo test --workspace --no-fail-fast --offline 2>&1 | grep -E "^test result: .*passed|FAILED|error(\[|:)" | head -3
+CARGO_TARGET_DIR=/tmp/rv/target_${SLOT:-0} cargo test --workspace --no-fail-fast --offline 2>&1 | grep -E "^test result: .*passed|FAILED|error(\[|:)" | head -3
 cd /verif
 for p in C01 C02 C03 C04 C05 C06 C07 C08 C09 C10 C11 C12 C13 C14 C15 C16 C17 C18 C19 C20; do
   out=$(VERIF_REPO=$WT VERIF_EVIDENCE_DIR=/tmp/rv/ev_$NAME VERIF_NO_SELFTEST=1 ./check $p 2>&1); rc=$?
